@@ -42,6 +42,9 @@ def items(ctx, un=gen.BODY_UN, bi=gen.BODY_BIN, n=None, depth=None, salt='items'
                   lambda x: ('wnext', 2, x), lambda x: ('initially', x), lambda x: ('finally', x), lambda x: ('since', None, x), lambda x: ('trigger', None, x), lambda x: ('until', None, x), lambda x: ('release', None, x),
                   lambda x: ('since', b, x), lambda x: ('trigger', b, x), lambda x: ('until', b, x), lambda x: ('release', b, x), lambda x: ('seqnext', b, x), lambda x: ('seqprev', b, x)]:
             out.append((ctxn, [('tel', ('not', w(a))), ('tel', ('not', ('not', w(a))))]))
+            # ... and every operator directly over a constant, as the only formula of its program (the constant is first met at a state other than the current one)
+            out.append((ctxn, [('tel', w(('true',)))]))
+            out.append((ctxn, [('tel', w(('false',)))]))
         # ... a formula and its weak / strong or dual sibling (two formulas that differ in one flag only), in both orders
         for f, g in gen.sibling_pairs():
             out.append((ctxp, [('tel', f), ('tel', g)]))
@@ -205,7 +208,11 @@ def run(ctx):
             cex.append({'key': 'c03:structure:' + r['program'].replace('\n', ' '), 'what': 'Theory.translate and the model Model/BodyTheoryFull.v differ: %s' % r.get('what'),
                         'input': {'structure': [[p_, f] for p_, f in fs], 'H': H, 'program': r['program']}})
     # atoms with arguments: the constraint programs with their atoms renamed to atoms with arguments against the programs themselves
-    rcex, rnon = meta.renaming_cex(ctx, [p for _, p in progs][:40 if ctx.quick else 200], 3, 'C03')
+    # (among the renamed programs: classically negated atoms below past and future operators - after renaming they have two and more arguments)
+    A_, NA_, B_ = ('atom', 'a'), ('atom', '-a'), ('atom', 'b')
+    negp = [[{'part': 'always', 'head': ('choice', ['a', 'b', '-a']), 'body': []}, {'part': 'always', 'head': ('cons',), 'body': [(sg, ('tel', f))]}]
+            for sg in 'nm' for f in (('prev', None, NA_), ('or', NA_, ('next', None, B_)), ('since', NA_, A_), ('until', B_, NA_), ('and', ('wnext', None, NA_), ('not', NA_)))]
+    rcex, rnon = meta.renaming_cex(ctx, negp + [p for _, p in progs][:40 if ctx.quick else 200], 3, 'C03')
     cex += rcex
     cex += scale_cex(ctx, 3)
     ops = {}
